@@ -16,8 +16,16 @@ class NativeError(Exception):
     pass
 
 
+def wrapped_layouts(info):
+    """layouts that are variants of the runtime-selectable wrapper (a new layout need not be)"""
+    lay = [l for l in info.layouts if 'AnyLayout' not in l]
+    variants = getattr(getattr(info, 'follow', None), 'cur_enums', {}).get('AnyLayout')
+    return [l for l in lay if variants is None or l in variants]
+
+
 def generated_rs(info):
     lay = [l for l in info.layouts if 'AnyLayout' not in l]
+    wrapped = wrapped_layouts(info)
     out = ['// generated on every run from %s' % REPO, 'use pc_keyboard::*;', 'use pc_keyboard::layouts::*;',
            'pub const KEYCODES: &[(&str, KeyCode)] = &[']
     for k in info.keycodes:
@@ -26,7 +34,7 @@ def generated_rs(info):
     out.append('pub const LAYOUTS: &[&str] = &[%s];' % ', '.join('"%s"' % l for l in lay))
     out.append('pub fn any_layout(name: &str) -> Option<AnyLayout> {')
     out.append('    match name {')
-    for l in lay:
+    for l in wrapped:
         out.append('        "%s" => Some(AnyLayout::%s(%s)),' % (l, l, l))
     out.append('        _ => None,')
     out.append('    }')
@@ -35,8 +43,9 @@ def generated_rs(info):
     out.append('    match name {')
     for l in lay:
         out.append('        "%s" => Some(%s.map_keycode(k, m, h)),' % (l, l))
-        out.append('        "Any:%s" => Some(AnyLayout::%s(%s).map_keycode(k, m, h)),' % (l, l, l))
-        out.append('        "RefAny:%s" => {{ let a = AnyLayout::%s(%s); let r = &a; Some(r.map_keycode(k, m, h)) }}' % (l, l, l))
+        if l in wrapped:
+            out.append('        "Any:%s" => Some(AnyLayout::%s(%s).map_keycode(k, m, h)),' % (l, l, l))
+            out.append('        "RefAny:%s" => {{ let a = AnyLayout::%s(%s); let r = &a; Some(r.map_keycode(k, m, h)) }}' % (l, l, l))
     out.append('        _ => None,')
     out.append('    }')
     out.append('}')
@@ -83,8 +92,11 @@ def xgen_rs(info):
     out.append('    match (layout % X_NLAYOUTS, form % 3) {')
     for i, l in enumerate(lay):
         out.append('        (%d, 0) => %s.map_keycode(k, m, h),' % (i, l))
-        out.append('        (%d, 1) => AnyLayout::%s(%s).map_keycode(k, m, h),' % (i, l, l))
-        out.append('        (%d, _) => {{ let a = AnyLayout::%s(%s); let r = &a; r.map_keycode(k, m, h) }}' % (i, l, l))
+        if l in wrapped_layouts(info):
+            out.append('        (%d, 1) => AnyLayout::%s(%s).map_keycode(k, m, h),' % (i, l, l))
+            out.append('        (%d, _) => {{ let a = AnyLayout::%s(%s); let r = &a; r.map_keycode(k, m, h) }}' % (i, l, l))
+        else:
+            out.append('        (%d, _) => %s.map_keycode(k, m, h),   // not a variant of AnyLayout' % (i, l))
     out.append('        _ => DecodedKey::RawKey(k),')
     out.append('    }')
     out.append('}')
